@@ -16,6 +16,16 @@
 //! `pool <k>` | `vault <k>` (`Contracts` naming one pair / vault; `k` out of range = no contract).
 //! The code checks no sender on either: owner, traders, bonders and the stranger all send them.
 //!
+//! `--variant many` (C10): the same stack with 9 / 10 / 12 extra native "filler" assets `uxaa …`, each with
+//! its own vault and its own pair against the distribution asset, created in shuffled order: MORE than
+//! 10 registered pairs and MORE than 10 vaults, so that the factories' page sizes (default 10, maximum
+//! 30; `ForwardFees` asks for 30) matter.  The factories list in STORAGE-KEY order (a vault's key is its
+//! denom, a pair's key the two denoms sorted and concatenated), not in creation order; the generator
+//! aims swaps / loans at the pairs / vaults beyond position 10 of that order, and the direct
+//! `collect` / `aggregate` ops take an optional page limit (`vfac <n>` | `vfac -` = `limit: None`).
+//! The init line names every pair (`pools=a.b,…`) and vault (`vaults=a,…`) in creation order; the
+//! observation tokens `cbal pp vp reg on rt` simply have one entry per asset / pair / vault.
+//!
 //! The monitors evaluate C09 / C10 as stated on the real observations (balance deltas against ledger
 //! deltas), using only their own bookkeeping (who bonded when, who was paid for which epoch, which epoch
 //! has left the grace window) — never the model.
@@ -68,6 +78,19 @@ fn adv_contract() -> Box<dyn cw_multi_test::Contract<Empty>> {
 
 fn nat(d: &str) -> AssetInfo {
     AssetInfo::NativeToken { denom: d.into() }
+}
+
+/// denom of asset `i`: the three base assets, then the fillers `uxaa, uxab, …` (all above `uwhale`,
+/// fixed width: ascending in index order and prefix-free)
+fn asset_denom(i: usize) -> String {
+    if i < ASSETS.len() {
+        ASSETS[i].to_string()
+    } else {
+        // letters only: the vault's LP token symbol `uLP-<denom>` must match [a-zA-Z\-]{3,12}
+        let k = i - ASSETS.len();
+        assert!(k < 26 * 26, "too many filler assets");
+        format!("ux{}{}", (b'a' + (k / 26) as u8) as char, (b'a' + (k % 26) as u8) as char)
+    }
 }
 
 #[derive(Clone, Debug, PartialEq, Eq)]
@@ -192,7 +215,15 @@ struct World {
     adv: Addr,
     pools: Vec<Addr>,
     vaults: Vec<Addr>,
+    /// denoms in ascending (byte) order = the order the collector aggregates in; `assets[DIST]` = uwhale
+    assets: Vec<String>,
+    /// asset indices of every pair / vault, in creation order (= the order of the init line)
+    pool_assets: Vec<(usize, usize)>,
     vault_assets: Vec<usize>,
+    /// pair / vault indices in the factories' listing order (ascending storage key), for the generator
+    /// and the coverage counters only
+    pool_order: Vec<usize>,
+    vault_order: Vec<usize>,
     // monitor bookkeeping (independent of the model)
     expired: BTreeSet<u64>,
     rolled: BTreeSet<u64>,
@@ -220,6 +251,33 @@ impl World {
         let dur = getn("dur", DAY);
         let pf = getl("pf", &[10, 10, 10]);
         let vfee = getl("vf", &[10, 10, 10]);
+        // pairs `a.b` and vault assets in creation order; asset indices >= 3 are the filler denoms
+        let pool_assets: Vec<(usize, usize)> = kv
+            .get("pools")
+            .map(|v| {
+                v.split(',')
+                    .filter_map(|t| t.split_once('.'))
+                    .filter_map(|(a, b)| Some((a.parse::<usize>().ok()?, b.parse::<usize>().ok()?)))
+                    .collect()
+            })
+            .unwrap_or_else(|| POOLS.to_vec());
+        let vault_assets: Vec<usize> = kv
+            .get("vaults")
+            .map(|v| v.split(',').filter_map(|x| x.parse::<usize>().ok()).collect())
+            .unwrap_or_else(|| VAULTS.to_vec());
+        let nassets = pool_assets
+            .iter()
+            .flat_map(|(a, b)| [*a, *b])
+            .chain(vault_assets.iter().copied())
+            .fold(ASSETS.len() - 1, usize::max)
+            + 1;
+        let assets: Vec<String> = (0..nassets).map(asset_denom).collect();
+        // what the model assumes about labels: ascending in index order and prefix-free
+        assert!(assets.windows(2).all(|w| w[0] < w[1]), "asset denoms must ascend");
+        assert!(
+            assets.iter().all(|a| assets.iter().all(|b| a == b || !b.starts_with(a.as_str()))),
+            "asset denoms must be prefix-free"
+        );
         let growth = kv.get("growth").and_then(|s| s.parse::<u128>().ok()).unwrap_or(0);
         let liq = kv.get("liq").and_then(|s| s.parse::<u128>().ok()).unwrap_or(1_000_000_000_000);
 
@@ -230,8 +288,8 @@ impl World {
         let users: Vec<Addr> = (0..NUSERS).map(|i| Addr::unchecked(format!("user{i}"))).collect();
         let big = 10u128.pow(24);
         let mut bals = vec![
-            (admin.clone(), ASSETS.iter().map(|d| coin(big, *d)).collect::<Vec<_>>()),
-            (trader.clone(), ASSETS.iter().map(|d| coin(big, *d)).collect::<Vec<_>>()),
+            (admin.clone(), assets.iter().map(|d| coin(big, d.as_str())).collect::<Vec<_>>()),
+            (trader.clone(), assets.iter().map(|d| coin(big, d.as_str())).collect::<Vec<_>>()),
         ];
         for u in &users {
             bals.push((u.clone(), BOND_DENOMS.iter().map(|d| coin(10u128.pow(15), *d)).collect()));
@@ -364,25 +422,25 @@ impl World {
                 None,
             )
             .unwrap();
-        for d in ASSETS {
+        for d in &assets {
             app.execute_contract(
                 admin.clone(),
                 fac.clone(),
-                &f::ExecuteMsg::AddNativeTokenDecimals { denom: d.into(), decimals: 6 },
-                &[coin(1, d)],
+                &f::ExecuteMsg::AddNativeTokenDecimals { denom: d.clone(), decimals: 6 },
+                &[coin(1, d.as_str())],
             )
             .unwrap();
         }
         let mut pools = vec![];
-        for (i, (a, b)) in POOLS.iter().enumerate() {
-            let infos = [nat(ASSETS[*a]), nat(ASSETS[*b])];
+        for (i, (a, b)) in pool_assets.iter().enumerate() {
+            let infos = [nat(&assets[*a]), nat(&assets[*b])];
             app.execute_contract(
                 admin.clone(),
                 fac.clone(),
                 &f::ExecuteMsg::CreatePair {
                     asset_infos: infos.clone(),
                     pool_fees: PoolFee {
-                        protocol_fee: permille_fee(pf[i]),
+                        protocol_fee: permille_fee(pf.get(i).copied().unwrap_or(10)),
                         swap_fee: permille_fee(2),
                         burn_fee: permille_fee(0),
                     },
@@ -406,7 +464,7 @@ impl World {
                     slippage_tolerance: None,
                     receiver: None,
                 },
-                &[coin(liq, ASSETS[*a]), coin(liq, ASSETS[*b])],
+                &[coin(liq, assets[*a].as_str()), coin(liq, assets[*b].as_str())],
             )
             .unwrap();
             pools.push(pair);
@@ -436,19 +494,15 @@ impl World {
                 None,
             )
             .unwrap();
-        let vault_assets: Vec<usize> = kv
-            .get("vaults")
-            .map(|v| v.split(',').filter_map(|x| x.parse::<usize>().ok()).filter(|x| *x < 3).collect())
-            .unwrap_or_else(|| VAULTS.to_vec());
         let mut vaults = vec![];
         for (i, a) in vault_assets.iter().enumerate() {
             app.execute_contract(
                 admin.clone(),
                 vfac.clone(),
                 &vf::ExecuteMsg::CreateVault {
-                    asset_info: nat(ASSETS[*a]),
+                    asset_info: nat(&assets[*a]),
                     fees: VaultFee {
-                        protocol_fee: permille_fee(vfee[i]),
+                        protocol_fee: permille_fee(vfee.get(i).copied().unwrap_or(10)),
                         flash_loan_fee: permille_fee(1),
                         burn_fee: permille_fee(0),
                     },
@@ -458,13 +512,13 @@ impl World {
             )
             .unwrap();
             let va: Option<String> =
-                app.wrap().query_wasm_smart(&vfac, &vf::QueryMsg::Vault { asset_info: nat(ASSETS[*a]) }).unwrap();
+                app.wrap().query_wasm_smart(&vfac, &vf::QueryMsg::Vault { asset_info: nat(&assets[*a]) }).unwrap();
             let va = Addr::unchecked(va.unwrap());
             app.execute_contract(
                 admin.clone(),
                 va.clone(),
                 &v::ExecuteMsg::Deposit { amount: liq.into() },
-                &coins(liq, ASSETS[*a]),
+                &coins(liq, assets[*a].as_str()),
             )
             .unwrap();
             vaults.push(va);
@@ -486,8 +540,18 @@ impl World {
         )
         .unwrap();
         let adv = app.instantiate_contract(adv_id, admin.clone(), &Empty {}, &[], "adv", None).unwrap();
-        app.send_tokens(admin.clone(), adv.clone(), &ASSETS.iter().map(|d| coin(10u128.pow(18), *d)).collect::<Vec<_>>())
+        app.send_tokens(admin.clone(), adv.clone(), &assets.iter().map(|d| coin(10u128.pow(18), d.as_str())).collect::<Vec<_>>())
             .unwrap();
+        // the factories' listing order: ascending storage key (pair: the two denoms sorted and
+        // concatenated; vault: the denom)
+        let pair_key = |(a, b): &(usize, usize)| {
+            let (x, y) = (assets[*a].as_str().min(assets[*b].as_str()), assets[*a].as_str().max(assets[*b].as_str()));
+            format!("{x}{y}").into_bytes()
+        };
+        let mut pool_order: Vec<usize> = (0..pool_assets.len()).collect();
+        pool_order.sort_by_key(|i| pair_key(&pool_assets[*i]));
+        let mut vault_order: Vec<usize> = (0..vault_assets.len()).collect();
+        vault_order.sort_by_key(|i| assets[vault_assets[*i]].clone().into_bytes());
         let mut w = World {
             app,
             admin,
@@ -504,7 +568,11 @@ impl World {
             adv,
             pools,
             vaults,
+            assets,
+            pool_assets,
             vault_assets,
+            pool_order,
+            vault_order,
             expired: BTreeSet::new(),
             rolled: BTreeSet::new(),
             paid: BTreeSet::new(),
@@ -524,21 +592,31 @@ impl World {
         }
     }
 
+    /// the page limit of a `vfac` / `pfac` target: none given = `Some(30)` (as ForwardFees asks),
+    /// `-` = `None` (the factory's default), `<n>` = `Some(n)`
+    fn page_limit(args: &[&str]) -> Option<Option<u32>> {
+        match args.get(1).copied() {
+            None => Some(Some(30)),
+            Some("-") => Some(None),
+            Some(x) => x.parse::<u32>().ok().map(Some),
+        }
+    }
+
     /// the `FeesFor` named by the arguments of a direct `collect` / `aggregate` op:
-    /// `vfac` | `pfac` (the factory's first page, as ForwardFees asks) | `xfac` (the pool factory asked
+    /// `vfac [<limit>]` | `pfac [<limit>]` (the factory's first page) | `xfac` (the pool factory asked
     /// for vaults) | `pool <k>` | `vault <k>` (`Contracts` naming one pair / vault; `k` out of range
     /// names an address that is no contract)
     fn fees_for(&self, args: &[&str]) -> Option<fc::FeesFor> {
         let idx = |s: Option<&&str>| s.and_then(|x| x.parse::<usize>().ok());
         let ghost = "nobody".to_string();
         match (args.first().copied(), args.len()) {
-            (Some("vfac"), 1) => Some(fc::FeesFor::Factory {
+            (Some("vfac"), 1 | 2) => Some(fc::FeesFor::Factory {
                 factory_addr: self.vfac.to_string(),
-                factory_type: fc::FactoryType::Vault { start_after: None, limit: Some(30) },
+                factory_type: fc::FactoryType::Vault { start_after: None, limit: Self::page_limit(args)? },
             }),
-            (Some("pfac"), 1) => Some(fc::FeesFor::Factory {
+            (Some("pfac"), 1 | 2) => Some(fc::FeesFor::Factory {
                 factory_addr: self.fac.to_string(),
-                factory_type: fc::FactoryType::Pool { start_after: None, limit: Some(30) },
+                factory_type: fc::FactoryType::Pool { start_after: None, limit: Self::page_limit(args)? },
             }),
             (Some("xfac"), 1) => Some(fc::FeesFor::Factory {
                 factory_addr: self.fac.to_string(),
@@ -567,7 +645,31 @@ impl World {
             .query_wasm_smart(&self.pools[i], &p::QueryMsg::ProtocolFees { asset_id: None, all_time: None })
             .unwrap();
         let get = |d: &str| res.fees.iter().filter(|a| a.info == nat(d)).map(|a| a.amount.u128()).sum::<u128>();
-        (get(ASSETS[POOLS[i].0]), get(ASSETS[POOLS[i].1]))
+        (get(&self.assets[self.pool_assets[i].0]), get(&self.assets[self.pool_assets[i].1]))
+    }
+
+    /// which pairs / vaults the factory lists on the page `Pairs { limit }` / `Vaults { limit }`:
+    /// the contracts a `Factory` target NAMES (asked of the real factory, before the op)
+    fn page_of(&self, kind: &str, limit: Option<u32>) -> (Vec<bool>, Vec<bool>) {
+        let q = self.app.wrap();
+        let mut pp = vec![false; self.pools.len()];
+        let mut vp = vec![false; self.vaults.len()];
+        if kind == "pfac" {
+            let r: Result<f::PairsResponse, _> = q.query_wasm_smart(&self.fac, &f::QueryMsg::Pairs { start_after: None, limit });
+            if let Ok(r) = r {
+                for (i, pa) in self.pools.iter().enumerate() {
+                    pp[i] = r.pairs.iter().any(|pi| pi.contract_addr == pa.as_str());
+                }
+            }
+        } else if kind == "vfac" {
+            let r: Result<vf::VaultsResponse, _> = q.query_wasm_smart(&self.vfac, &vf::QueryMsg::Vaults { start_after: None, limit });
+            if let Ok(r) = r {
+                for (i, va) in self.vaults.iter().enumerate() {
+                    vp[i] = r.vaults.iter().any(|vi| vi.vault == va.as_str());
+                }
+            }
+        }
+        (pp, vp)
     }
     fn vault_pending(&self, i: usize) -> u128 {
         let res: v::ProtocolFeesResponse =
@@ -610,9 +712,19 @@ impl World {
                 c.epochs.iter().map(|e| e.id.u64()).collect::<Vec<_>>()
             })
             .collect();
-        let pairs: f::PairsResponse =
-            q.query_wasm_smart(&self.fac, &f::QueryMsg::Pairs { start_after: None, limit: Some(30) }).unwrap();
-        let reg = self.pools.iter().map(|pa| pairs.pairs.iter().any(|pi| pi.contract_addr == pa.as_str())).collect();
+        // registered = the factory has an entry for the pair's assets (asked per pair: independent of any page size)
+        let reg = self
+            .pools
+            .iter()
+            .zip(&self.pool_assets)
+            .map(|(pa, (a, b))| {
+                let pi: Result<white_whale_std::pool_network::asset::PairInfo, _> = q.query_wasm_smart(
+                    &self.fac,
+                    &f::QueryMsg::Pair { asset_infos: [nat(&self.assets[*a]), nat(&self.assets[*b])] },
+                );
+                pi.map(|pi| pi.contract_addr == pa.as_str()).unwrap_or(false)
+            })
+            .collect();
         let on = self
             .pools
             .iter()
@@ -621,14 +733,14 @@ impl World {
                 c.feature_toggle.swaps_enabled
             })
             .collect();
-        let rt = (0..ASSETS.len())
+        let rt = (0..self.assets.len())
             .map(|i| {
                 if i == DIST {
                     return 0u8;
                 }
                 let ops: Result<Vec<r::SwapOperation>, _> = q.query_wasm_smart(
                     &self.router,
-                    &r::QueryMsg::SwapRoute { offer_asset_info: nat(ASSETS[i]), ask_asset_info: nat(ASSETS[DIST]) },
+                    &r::QueryMsg::SwapRoute { offer_asset_info: nat(&self.assets[i]), ask_asset_info: nat(ASSETS[DIST]) },
                 );
                 ops.map(|o| o.len() as u8).unwrap_or(0)
             })
@@ -637,7 +749,7 @@ impl World {
             grace: cfg.grace_period.u64(),
             dbal: bal(&self.app, &self.dist, ASSETS[DIST]),
             dao: bal(&self.app, &self.dao, ASSETS[DIST]),
-            cbal: ASSETS.iter().map(|d| bal(&self.app, &self.col, d)).collect(),
+            cbal: self.assets.iter().map(|d| bal(&self.app, &self.col, d)).collect(),
             eps,
             trh,
             ub: self.users.iter().map(|u| bal(&self.app, u, ASSETS[DIST])).collect(),
@@ -698,11 +810,11 @@ fn scan_swaps(w: &World, resp: &AppResponse, direct: bool) -> (Vec<SwapEv>, Vec<
             if let Some(pi) = w.pools.iter().position(|pa| pa.as_str() == ca) {
                 let ask = get("ask_asset").unwrap_or_default();
                 let offer = get("offer_asset").unwrap_or_default();
-                let ask_side = if ask == ASSETS[POOLS[pi].0] { 0 } else { 1 };
+                let ask_side = if ask == w.assets[w.pool_assets[pi].0] { 0 } else { 1 };
                 swaps.push(SwapEv {
                     pool: pi,
                     ask_side,
-                    offer: ASSETS.iter().position(|d| *d == offer).unwrap_or(9),
+                    offer: w.assets.iter().position(|d| *d == offer).unwrap_or(usize::MAX),
                     to_collector: get("receiver").as_deref() == Some(w.col.as_str()),
                     ret: get("return_amount").and_then(|x| x.parse().ok()).unwrap_or(0),
                     pfee: get("protocol_fee_amount").and_then(|x| x.parse().ok()).unwrap_or(0),
@@ -748,6 +860,8 @@ struct SwapEv {
 pub struct Feeflow {
     w: Option<World>,
     rec: Option<String>,
+    /// `--variant many`: generate worlds with more than 10 pairs and more than 10 vaults
+    many: bool,
     // generator state
     g: Gen,
 }
@@ -767,11 +881,11 @@ struct Gen {
 }
 
 impl Feeflow {
-    pub fn new(_variant: &str) -> Self {
+    pub fn new(variant: &str) -> Self {
         if std::env::var("FEEFLOW_DEBUG").is_ok() {
             std::panic::set_hook(Box::new(|i| eprintln!("PANIC {i}")));
         }
-        Feeflow::default()
+        Feeflow { many: variant == "many", ..Feeflow::default() }
     }
 
     fn run(&mut self, sender: &str, op: &str, args: &[&str], mon: &mut Monitor) -> (String, Vec<String>) {
@@ -783,6 +897,8 @@ impl Feeflow {
         let mut rec: Vec<String> = vec![];
         let mut swaps: Vec<SwapEv> = vec![];
         let mut stage_of_swap: Vec<usize> = vec![];
+        // the pairs / vaults a direct `vfac` / `pfac` target names: the factory's page, asked before the op
+        let mut page: (Vec<bool>, Vec<bool>) = (vec![], vec![]);
         let pn = |s: Option<&&str>| s.and_then(|x| x.parse::<u128>().ok());
         let exec = |app: &mut App, s: &Addr, c: &Addr, m: &dyn erased::Msg, funds: &[cosmwasm_std::Coin]| -> Outcome<AppResponse> {
             let bin = m.bin();
@@ -918,20 +1034,21 @@ impl Feeflow {
                 let (Some(pi), Some(side), Some(a)) = (pn(args.first()), pn(args.get(1)), pn(args.get(2))) else {
                     return ("bad-op".into(), vec![]);
                 };
-                let (pi, side) = (pi as usize % 3, side as usize % 2);
-                let offer = if side == 0 { POOLS[pi].0 } else { POOLS[pi].1 };
+                let (pi, side) = (pi as usize % w.pools.len(), side as usize % 2);
+                let offer = if side == 0 { w.pool_assets[pi].0 } else { w.pool_assets[pi].1 };
+                let offer_denom = w.assets[offer].clone();
                 let before = w.pool_pending(pi);
                 let o = exec(
                     &mut w.app,
                     &sa,
                     &w.pools[pi].clone(),
                     &p::ExecuteMsg::Swap {
-                        offer_asset: Asset { info: nat(ASSETS[offer]), amount: a.into() },
+                        offer_asset: Asset { info: nat(&offer_denom), amount: a.into() },
                         belief_price: None,
                         max_spread: Some(Decimal::percent(50)),
                         to: None,
                     },
-                    &coins(a, ASSETS[offer]),
+                    &coins(a, offer_denom.as_str()),
                 );
                 let after = w.pool_pending(pi);
                 let fee = if side == 0 { after.1 - before.1 } else { after.0 - before.0 };
@@ -942,7 +1059,8 @@ impl Feeflow {
             "loan" => {
                 let (Some(vi), Some(a)) = (pn(args.first()), pn(args.get(1))) else { return ("bad-op".into(), vec![]) };
                 let vi = vi as usize % w.vaults.len().max(1);
-                let denom = ASSETS[w.vault_assets[vi]];
+                let denom = w.assets[w.vault_assets[vi]].clone();
+                let denom = denom.as_str();
                 let before = w.vault_pending(vi);
                 let pay: Result<v::PaybackAmountResponse, _> =
                     w.app.wrap().query_wasm_smart(&w.vaults[vi], &v::QueryMsg::GetPaybackAmount { amount: a.into() });
@@ -971,21 +1089,21 @@ impl Feeflow {
                 };
                 let to = if *tgt == "col" { w.col.clone() } else { w.dist.clone() };
                 let (app, from) = (&mut w.app, sa.clone());
-                let denom = ASSETS[ai as usize % 3];
-                guarded(|| app.send_tokens(from, to, &coins(a, denom)))
+                let denom = w.assets[ai as usize % w.assets.len()].clone();
+                guarded(|| app.send_tokens(from, to, &coins(a, denom.as_str())))
             }
             "addroute" | "rmroute" => {
                 let Some(ai) = pn(args.first()) else { return ("bad-op".into(), vec![]) };
-                let ai = ai as usize % 3;
-                let other = 1 - ai.min(1); // the other non-distribution asset (assets 0 and 1)
+                let ai = ai as usize % w.assets.len();
+                let other = 1 - ai.min(1); // the first asset that is neither `ai` nor the distribution asset
                 let kind = args.get(1).copied().unwrap_or("direct");
                 let hop = |a: usize, b: usize| r::SwapOperation::TerraSwap {
-                    offer_asset_info: nat(ASSETS[a]),
-                    ask_asset_info: nat(ASSETS[b]),
+                    offer_asset_info: nat(&w.assets[a]),
+                    ask_asset_info: nat(&w.assets[b]),
                 };
                 let ops = if kind == "twohop" { vec![hop(ai, other), hop(other, DIST)] } else { vec![hop(ai, DIST)] };
                 let route = r::SwapRoute {
-                    offer_asset_info: nat(ASSETS[ai]),
+                    offer_asset_info: nat(&w.assets[ai]),
                     ask_asset_info: nat(ASSETS[DIST]),
                     swap_operations: ops,
                 };
@@ -998,18 +1116,19 @@ impl Feeflow {
             }
             "unreg" => {
                 let Some(pi) = pn(args.first()) else { return ("bad-op".into(), vec![]) };
-                let pi = pi as usize % 3;
+                let pi = pi as usize % w.pools.len();
+                let (a, b) = w.pool_assets[pi];
                 exec(
                     &mut w.app,
                     &sa,
                     &w.fac.clone(),
-                    &f::ExecuteMsg::RemovePair { asset_infos: [nat(ASSETS[POOLS[pi].0]), nat(ASSETS[POOLS[pi].1])] },
+                    &f::ExecuteMsg::RemovePair { asset_infos: [nat(&w.assets[a]), nat(&w.assets[b])] },
                     &[],
                 )
             }
             "toggle" => {
                 let (Some(pi), Some(on)) = (pn(args.first()), pn(args.get(1))) else { return ("bad-op".into(), vec![]) };
-                let pi = pi as usize % 3;
+                let pi = pi as usize % w.pools.len();
                 exec(
                     &mut w.app,
                     &sa,
@@ -1031,6 +1150,9 @@ impl Feeflow {
             "collect" | "aggregate" => {
                 // CollectFees / AggregateFees sent to the collector directly (not the self-calls of ForwardFees)
                 let Some(ff) = w.fees_for(args) else { return ("bad-op".into(), vec![]) };
+                if let (Some(kind @ ("vfac" | "pfac")), Some(limit)) = (args.first().copied(), World::page_limit(args)) {
+                    page = w.page_of(kind, limit);
+                }
                 let o = if op == "collect" {
                     exec(&mut w.app, &sa, &w.col.clone(), &fc::ExecuteMsg::CollectFees { collect_fees_for: ff }, &[])
                 } else {
@@ -1061,7 +1183,7 @@ impl Feeflow {
                 eprintln!("ERR {op} {sender}: {e}");
             }
         }
-        Self::monitors(w, mon, &pre, &post, sender, uidx, op, args, o3, &swaps, &stage_of_swap);
+        Self::monitors(w, mon, &pre, &post, sender, uidx, op, args, o3, &swaps, &stage_of_swap, &page);
         w.last = post.clone();
         (format!("{o3} {}", post.line()), rec)
     }
@@ -1079,6 +1201,7 @@ impl Feeflow {
         o3: &str,
         swaps: &[SwapEv],
         stages: &[usize],
+        page: &(Vec<bool>, Vec<bool>),
     ) {
         let ok = o3 == "ok";
         let d = |s: String| move || s;
@@ -1104,7 +1227,7 @@ impl Feeflow {
             return;
         }
         if op == "collect" || op == "aggregate" {
-            Self::monitor_direct(w, mon, pre, post, sender, op, args, swaps);
+            Self::monitor_direct(w, mon, pre, post, sender, op, args, swaps, page);
         }
         // ---- C10 forward_auth: nobody but the distributor may trigger forwarding
         if op == "fwd" {
@@ -1287,10 +1410,28 @@ impl Feeflow {
     /// exactly the collectable pending fees of the named pools / vaults into the collector, the aggregation
     /// only converts collector balances through registered routes; nothing else changes.
     #[allow(clippy::too_many_arguments)]
-    fn monitor_direct(w: &World, mon: &mut Monitor, pre: &Obs, post: &Obs, sender: &str, op: &str, args: &[&str], swaps: &[SwapEv]) {
+    fn monitor_direct(
+        w: &World,
+        mon: &mut Monitor,
+        pre: &Obs,
+        post: &Obs,
+        sender: &str,
+        op: &str,
+        args: &[&str],
+        swaps: &[SwapEv],
+        page: &(Vec<bool>, Vec<bool>),
+    ) {
         let d = |s: String| move || s;
         let kind = args.first().copied().unwrap_or("?");
         let k = args.get(1).and_then(|x| x.parse::<usize>().ok());
+        // a `Factory` target names the pairs / vaults on the factory's page for the limit it carries
+        let on_pool_page = |i: usize| kind == "pfac" && page.0.get(i).copied().unwrap_or(false);
+        let on_vault_page = |i: usize| kind == "vfac" && page.1.get(i).copied().unwrap_or(false);
+        if kind == "vfac" || kind == "pfac" {
+            let n = if kind == "vfac" { page.1.iter().filter(|x| **x).count() } else { page.0.iter().filter(|x| **x).count() };
+            let total = if kind == "vfac" { w.vaults.len() } else { pre.reg.iter().filter(|x| **x).count() };
+            mon.stat(if n == total { "direct_page_lists_all" } else { "direct_page_lists_part" });
+        }
         mon.stat(&format!("direct_{op}_{kind}_ok"));
         mon.stat(&format!("direct_{op}_by_{}_ok", sender_class(sender)));
         // distributor, DAO, epochs, take-rate history, bonders, registry, configuration: untouched
@@ -1314,9 +1455,9 @@ impl Feeflow {
             d(format!("direct {op} {kind} by {sender} changed the distributor / DAO / epochs / configuration:\n pre  {}\n post {}", pre.line(), post.line())),
         );
         if op == "collect" {
-            let mut moved = vec![0u128; ASSETS.len()];
+            let mut moved = vec![0u128; w.assets.len()];
             for (i, a) in w.vault_assets.iter().enumerate() {
-                let named = kind == "vfac" || (kind == "vault" && k == Some(i));
+                let named = on_vault_page(i) || (kind == "vault" && k == Some(i));
                 if named {
                     mon.check("C10", "direct_collect_exact", post.vp[i] == 0, d(format!("direct collect {kind}: vault {i} still has {} pending (had {})", post.vp[i], pre.vp[i])));
                     moved[*a] += pre.vp[i];
@@ -1330,9 +1471,9 @@ impl Feeflow {
                     mon.check("C10", "direct_collect_exact", post.vp[i] == pre.vp[i], d(format!("direct collect {kind}: vault {i} was not named but its pending went {} -> {}", pre.vp[i], post.vp[i])));
                 }
             }
-            for (i, (a, b)) in POOLS.iter().enumerate() {
+            for (i, (a, b)) in w.pool_assets.iter().enumerate() {
                 // a factory page lists the registered pairs only; a pair named as a contract needs no listing
-                let named = (kind == "pfac" && pre.reg[i]) || (kind == "pool" && k == Some(i));
+                let named = (on_pool_page(i) && pre.reg[i]) || (kind == "pool" && k == Some(i));
                 let sides = [(0usize, *a, pre.pp[i].0, post.pp[i].0), (1usize, *b, pre.pp[i].1, post.pp[i].1)];
                 for (sd, asset, before, after) in sides {
                     if named && before > THRESH {
@@ -1344,6 +1485,8 @@ impl Feeflow {
                         if kind == "pfac" || (kind == "pool" && k == Some(i)) {
                             mon.stat(if before == 0 {
                                 "dcol_pool_pending_zero"
+                            } else if !named && pre.reg[i] {
+                                "dcol_pool_pending_beyond_page"
                             } else if !named {
                                 "dcol_pool_pending_unregistered"
                             } else if before == THRESH {
@@ -1358,12 +1501,12 @@ impl Feeflow {
                     mon.stat("dcol_named_unregistered_pool");
                 }
             }
-            for i in 0..ASSETS.len() {
+            for i in 0..w.assets.len() {
                 mon.check(
                     "C10",
                     "direct_collect_exact",
                     post.cbal[i] == pre.cbal[i] + moved[i],
-                    d(format!("direct collect {kind}: collector {} {} -> {} but {} left the named pools / vaults", ASSETS[i], pre.cbal[i], post.cbal[i], moved[i])),
+                    d(format!("direct collect {kind}: collector {} {} -> {} but {} left the named pools / vaults", w.assets[i], pre.cbal[i], post.cbal[i], moved[i])),
                 );
             }
             mon.stat(if moved.iter().any(|m| *m > 0) { "dcol_moved_something" } else { "dcol_moved_nothing" });
@@ -1380,7 +1523,7 @@ impl Feeflow {
             }
             // pending fees: only what the aggregation swaps themselves accrued
             let mut pend_ok = pre.vp == post.vp;
-            for i in 0..POOLS.len() {
+            for i in 0..w.pool_assets.len() {
                 let a0 = *acc.get(&(i, 0)).unwrap_or(&0);
                 let a1 = *acc.get(&(i, 1)).unwrap_or(&0);
                 pend_ok &= post.pp[i] == (pre.pp[i].0 + a0, pre.pp[i].1 + a1);
@@ -1388,13 +1531,13 @@ impl Feeflow {
             mon.check("C10", "direct_aggregate_only_converts", pend_ok, d(format!("direct aggregate {kind}: pending fees changed beyond what its swaps accrued: pp {:?} -> {:?}, vp {:?} -> {:?}", pre.pp, post.pp, pre.vp, post.vp)));
             let cand = |i: usize| -> bool {
                 if kind == "vfac" {
-                    w.vault_assets.contains(&i)
+                    w.vault_assets.iter().enumerate().any(|(vi, a)| on_vault_page(vi) && *a == i)
                 } else {
-                    POOLS.iter().enumerate().any(|(pi, (a, b))| pre.reg[pi] && (*a == i || *b == i))
+                    w.pool_assets.iter().enumerate().any(|(pi, (a, b))| on_pool_page(pi) && pre.reg[pi] && (*a == i || *b == i))
                 }
             };
             let mut n_swapped = 0;
-            for i in 0..ASSETS.len() {
+            for i in 0..w.assets.len() {
                 if i == DIST {
                     continue;
                 }
@@ -1404,13 +1547,13 @@ impl Feeflow {
                     "C10",
                     "direct_aggregate_only_converts",
                     post.cbal[i] == have || post.cbal[i] == 0,
-                    d(format!("direct aggregate {kind}: collector {} {have} -> {} (neither untouched nor swapped in full)", ASSETS[i], post.cbal[i])),
+                    d(format!("direct aggregate {kind}: collector {} {have} -> {} (neither untouched nor swapped in full)", w.assets[i], post.cbal[i])),
                 );
                 mon.check(
                     "C10",
                     "direct_aggregate_only_converts",
                     !touched || (have > THRESH && pre.rt[i] != 0 && cand(i)),
-                    d(format!("direct aggregate {kind}: collector {} ({have}) was swapped although it is below the threshold, has no route (rt {}) or is no asset of the named factory", ASSETS[i], pre.rt[i])),
+                    d(format!("direct aggregate {kind}: collector {} ({have}) was swapped although it is below the threshold, has no route (rt {}) or is no asset of the named factory page", w.assets[i], pre.rt[i])),
                 );
                 if touched {
                     n_swapped += 1;
@@ -1451,10 +1594,31 @@ impl Feeflow {
         for s in swaps {
             *acc.entry((s.pool, s.ask_side)).or_insert(0) += s.pfee;
         }
-        let mut collected = vec![0u128; ASSETS.len()];
+        let mut collected = vec![0u128; w.assets.len()];
+        // coverage: did a pair / vault beyond position 10 of the factory's listing have something to collect?
+        let tail_pool = w.pool_order.iter().skip(10).any(|i| pre.reg[*i] && (pre.pp[*i].0 > THRESH || pre.pp[*i].1 > THRESH));
+        let tail_vault = w.vault_order.iter().skip(10).any(|i| pre.vp[*i] > 0);
+        if w.pools.len() > 10 {
+            mon.stat(if tail_pool { "pipeline_pool_beyond_10_collectable" } else { "pipeline_pool_beyond_10_nothing" });
+        }
+        if w.vaults.len() > 10 {
+            mon.stat(if tail_vault { "pipeline_vault_beyond_10_pending" } else { "pipeline_vault_beyond_10_nothing" });
+        }
         // vaults: everything pending is collected
         for (i, a) in w.vault_assets.iter().enumerate() {
-            mon.check("C10", "pending_collected", post.vp[i] == 0, d(format!("vault {i} still has {} pending after NewEpoch", post.vp[i])));
+            mon.check(
+                "C10",
+                "pending_collected",
+                post.vp[i] == 0,
+                d(format!(
+                    "vault {i} ({}, entry {} of {} in the vault factory's listing) still has {} pending after NewEpoch (had {})",
+                    w.assets[*a],
+                    w.vault_order.iter().position(|x| *x == i).map(|x| x + 1).unwrap_or(0),
+                    w.vaults.len(),
+                    post.vp[i],
+                    pre.vp[i]
+                )),
+            );
             collected[*a] += pre.vp[i];
             mon.stat(match pre.vp[i] {
                 0 => "vault_pending_zero",
@@ -1463,12 +1627,23 @@ impl Feeflow {
             });
         }
         // pools: entries above the pair's threshold are collected, the others stay pending
-        for (i, (a, b)) in POOLS.iter().enumerate() {
+        for (i, (a, b)) in w.pool_assets.iter().enumerate() {
             let sides = [(0usize, *a, pre.pp[i].0, post.pp[i].0), (1usize, *b, pre.pp[i].1, post.pp[i].1)];
             for (sd, asset, before, after) in sides {
                 let accrued = *acc.get(&(i, sd)).unwrap_or(&0);
                 if pre.reg[i] && before > THRESH {
-                    mon.check("C10", "pending_collected", after == accrued, d(format!("pool {i} side {sd}: pending {before} -> {after} (accrued by aggregation {accrued})")));
+                    mon.check(
+                        "C10",
+                        "pending_collected",
+                        after == accrued,
+                        d(format!(
+                            "pool {i} ({}/{}, registered, entry {} of {} in the pool factory's listing) side {sd}: collectable pending {before} -> {after} after NewEpoch (accrued by aggregation {accrued})",
+                            w.assets[*a],
+                            w.assets[*b],
+                            w.pool_order.iter().filter(|x| pre.reg[**x]).position(|x| *x == i).map(|x| x + 1).unwrap_or(0),
+                            pre.reg.iter().filter(|x| **x).count()
+                        )),
+                    );
                     collected[asset] += before;
                     mon.stat("pool_pending_gt_1000");
                 } else {
@@ -1488,7 +1663,7 @@ impl Feeflow {
         // aggregation: every non-distribution asset is either fully swapped or untouched
         let mut swapped_in = 0u128;
         let mut n_swapped = 0;
-        for i in 0..ASSETS.len() {
+        for i in 0..w.assets.len() {
             if i == DIST {
                 continue;
             }
@@ -1499,13 +1674,13 @@ impl Feeflow {
                 "C10",
                 "untouched_or_swapped",
                 post.cbal[i] == have || post.cbal[i] == 0,
-                d(format!("collector {}: had {} + collected {} -> {}", ASSETS[i], pre.cbal[i], collected[i], post.cbal[i])),
+                d(format!("collector {}: had {} + collected {} -> {}", w.assets[i], pre.cbal[i], collected[i], post.cbal[i])),
             );
             mon.check(
                 "C10",
                 "untouched_or_swapped",
                 !touched || can,
-                d(format!("collector {} ({have}) was swapped although it is below the threshold or has no route (rt {})", ASSETS[i], pre.rt[i])),
+                d(format!("collector {} ({have}) was swapped although it is below the threshold or has no route (rt {})", w.assets[i], pre.rt[i])),
             );
             if touched {
                 n_swapped += 1;
@@ -1526,12 +1701,12 @@ impl Feeflow {
         // threshold can only have stayed in the collector if its route did not simulate. For a one-hop
         // route whose pair no swap of this transaction went through, the pair is still in the state
         // it had when the collector simulated, so the simulation can be repeated now.
-        for i in 0..ASSETS.len() {
+        for i in 0..w.assets.len() {
             if i == DIST {
                 continue;
             }
             let have = pre.cbal[i] + collected[i];
-            let direct_pool = POOLS.iter().position(|(a, b)| (*a == i && *b == DIST) || (*b == i && *a == DIST));
+            let direct_pool = w.pool_assets.iter().position(|(a, b)| (*a == i && *b == DIST) || (*b == i && *a == DIST));
             if let Some(pi) = direct_pool {
                 if have > THRESH && pre.rt[i] == 1 && post.cbal[i] == have && pre.reg[pi] && !swaps.iter().any(|s| s.pool == pi) {
                     let sim: Result<r::SimulateSwapOperationsResponse, _> = w.app.wrap().query_wasm_smart(
@@ -1539,7 +1714,7 @@ impl Feeflow {
                         &r::QueryMsg::SimulateSwapOperations {
                             offer_amount: have.into(),
                             operations: vec![r::SwapOperation::TerraSwap {
-                                offer_asset_info: nat(ASSETS[i]),
+                                offer_asset_info: nat(&w.assets[i]),
                                 ask_asset_info: nat(ASSETS[DIST]),
                             }],
                         },
@@ -1550,7 +1725,7 @@ impl Feeflow {
                         sim.is_err(),
                         d(format!(
                             "NewEpoch succeeded and left {have} {} in the collector although its registered one-hop route simulates: the swap step must have failed without failing the operation",
-                            ASSETS[i]
+                            w.assets[i]
                         )),
                     );
                 }
@@ -1700,6 +1875,42 @@ impl Engine for Feeflow {
             // which assets have a vault: an asset with a pool but no vault is only aggregated in the
             // last (pools) stage of ForwardFees
             let vaults = *rng.pick(&["2,1,0", "2,1,0", "2,1", "2,0", "1,0", "2,1,0"]);
+            if self.many {
+                // 9 / 10 / 12 filler assets (indices 3 …), each with a pair against the distribution
+                // asset and a vault, created in shuffled order after the three base pairs / vaults:
+                // 12 / 13 / 15 pairs and vaults, the listing order differs from the creation order
+                let extra = *rng.pick(&[9usize, 9, 10, 12]);
+                let shuffled = |rng: &mut Rng| {
+                    let mut v: Vec<usize> = (3..3 + extra).collect();
+                    for i in (1..v.len()).rev() {
+                        v.swap(i, rng.below(i as u64 + 1) as usize);
+                    }
+                    v
+                };
+                let mut pools = vec!["0.2".to_string(), "1.2".to_string(), "0.1".to_string()];
+                pools.extend(shuffled(rng).iter().map(|k| format!("{k}.{DIST}")));
+                let mut vl: Vec<String> = vec!["2".into(), "1".into(), "0".into()];
+                vl.extend(shuffled(rng).iter().map(|k| k.to_string()));
+                let mut pf = pf;
+                let mut vfs = vfs;
+                for _ in 0..extra {
+                    pf.push(*rng.pick(&pfs[1..]));
+                    vfs.push(*rng.pick(&pfs));
+                }
+                // routes for some of the filler assets, so that the aggregation swaps them
+                for a in 3..3 + extra {
+                    if rng.chance(1, 3) {
+                        self.g.setup.push(format!("admin addroute {a} direct"));
+                    }
+                }
+                return Some(format!(
+                    "init feeflow grace={grace} genesis={genesis} dur={DAY} pools={} vaults={} dist={DIST} nusers={NUSERS} pf={} vf={} growth={growth}",
+                    pools.join(","),
+                    vl.join(","),
+                    join(&pf, ","),
+                    join(&vfs, ",")
+                ));
+            }
             return Some(format!(
                 "init feeflow grace={grace} genesis={genesis} dur={DAY} pools=0.2,1.2,0.1 vaults={vaults} dist={DIST} nusers={NUSERS} pf={} vf={} growth={growth}",
                 join(&pf, ","),
@@ -1806,15 +2017,51 @@ impl Feeflow {
         if self.g.t + step <= cap.max(self.g.t) {
             self.g.t += step;
         }
-        let off: Vec<usize> = (0..3).filter(|i| !last.on[*i]).collect();
+        // (with the three base pairs / vaults / assets the bounds below are the literal 3 / 2 they replace)
+        let (np, nv, na) = (w.pools.len() as u64, w.vaults.len().max(1) as u64, w.assets.len() as u64);
+        let non_dist = |rng: &mut Rng| {
+            let x = rng.below(na - 1);
+            if x >= DIST as u64 { x + 1 } else { x }
+        };
+        let off: Vec<usize> = (0..np as usize).filter(|i| !last.on[*i]).collect();
         if !off.is_empty() && rng.chance(1, 3) {
             return Some(format!("admin toggle {} 1", rng.pick(&off)));
+        }
+        if self.many && rng.chance(2, 5) {
+            // protocol fees for the pairs / vaults LATE in the factories' listing order (from the 9th
+            // entry on; the 11th is the first one beyond a default page), sizes around the thresholds
+            let late = |rng: &mut Rng, order: &[usize]| -> usize {
+                if order.len() > 8 && rng.chance(3, 4) { *rng.pick(&order[8..]) } else { *rng.pick(order) }
+            };
+            if rng.chance(3, 5) {
+                let pi = late(rng, &w.pool_order);
+                let side = rng.below(2) as usize;
+                let pend = if side == 0 { last.pp[pi].1 } else { last.pp[pi].0 };
+                let amt = match rng.below(5) {
+                    0 => rng.range(1, 2000) as u128,
+                    1 | 2 | 3 => {
+                        let target = *rng.pick(&[999u128, 1000, 1001, 1002, 1500, 5000]);
+                        let need = target.saturating_sub(pend).max(1);
+                        need * 1000 / *rng.pick(&[1u128, 3, 10, 30])
+                    }
+                    _ => rng.log_uniform(30),
+                };
+                return Some(format!("trader swap {pi} {side} {}", amt.max(1)));
+            }
+            let vi = late(rng, &w.vault_order);
+            let amt = match rng.below(4) {
+                0 => rng.range(1, 5000) as u128,
+                1 => 100_000,
+                2 => 100_100,
+                _ => rng.log_uniform(30),
+            };
+            return Some(format!("admin loan {vi} {amt}"));
         }
         let u = rng.below(4); // u4 never bonds
         let k = rng.below(100);
         let body = if k < 21 {
             // swap: sizes around the pair's collect threshold and free ones
-            let pi = rng.below(3) as usize;
+            let pi = rng.below(np) as usize;
             let side = rng.below(2) as usize;
             let pend = if side == 0 { last.pp[pi].1 } else { last.pp[pi].0 };
             let amt = match rng.below(6) {
@@ -1838,29 +2085,40 @@ impl Feeflow {
                 _ => format!("u{}", rng.below(NUSERS as u64)),
             };
             // collected fees stay in the collector until the next aggregation: collect first, then aggregate
-            let has_bal = (0..ASSETS.len()).any(|i| i != DIST && last.cbal[i] > 0);
+            let has_bal = (0..na as usize).any(|i| i != DIST && last.cbal[i] > 0);
+            // `many`: a page limit on the factory targets (none = 30; `-` = the factory's default)
+            let ghost = if self.many { 99 } else { 7 };
+            let with_limit = |rng: &mut Rng, t: String| -> String {
+                if self.many && (t == "vfac" || t == "pfac") && rng.chance(2, 3) {
+                    format!("{t} {}", rng.pick(&["-", "-", "0", "1", "5", "9", "10", "11", "12", "13", "29", "30", "31", "99"]))
+                } else {
+                    t
+                }
+            };
             if rng.chance(if has_bal { 1 } else { 2 }, 3) {
                 let target = match rng.below(20) {
                     0..=5 => "vfac".to_string(),
                     6..=12 => "pfac".to_string(),
-                    13..=15 => format!("pool {}", rng.below(3)),
-                    16..=17 => format!("vault {}", rng.below(w.vaults.len().max(1) as u64)),
+                    13..=15 => format!("pool {}", rng.below(np)),
+                    16..=17 => format!("vault {}", rng.below(nv)),
                     18 => "xfac".to_string(),
-                    _ => format!("{} 7", if rng.chance(1, 2) { "pool" } else { "vault" }),
+                    _ => format!("{} {ghost}", if rng.chance(1, 2) { "pool" } else { "vault" }),
                 };
+                let target = with_limit(rng, target);
                 format!("{who} collect {target}")
             } else {
                 let target = match rng.below(20) {
                     0..=7 => "vfac".to_string(),
                     8..=16 => "pfac".to_string(),
-                    17 => format!("pool {}", rng.below(3)),
-                    18 => format!("vault {}", rng.below(w.vaults.len().max(1) as u64)),
+                    17 => format!("pool {}", rng.below(np)),
+                    18 => format!("vault {}", rng.below(nv)),
                     _ => "xfac".to_string(),
                 };
+                let target = with_limit(rng, target);
                 format!("{who} aggregate {target}")
             }
         } else if k < 38 {
-            let vi = rng.below(w.vaults.len().max(1) as u64);
+            let vi = rng.below(nv);
             let amt = match rng.below(5) {
                 0 => rng.range(1, 5000) as u128,
                 1 => 100_000,
@@ -1907,7 +2165,7 @@ impl Feeflow {
             format!("u{u} unbond {di} {amt}")
         } else if k < 81 {
             let tgt = if rng.chance(3, 4) { "col" } else { "dist" };
-            let ai = rng.below(3);
+            let ai = rng.below(na);
             let amt = match rng.below(5) {
                 0 => 1000u128.saturating_sub(last.cbal[ai as usize]).max(1),
                 1 => 1001u128.saturating_sub(last.cbal[ai as usize]).max(1),
@@ -1939,13 +2197,13 @@ impl Feeflow {
         } else if k < 96 {
             let kind = if rng.chance(1, 3) { "twohop" } else { "direct" };
             let who = if rng.chance(1, 10) { "stranger" } else { "admin" };
-            format!("{who} addroute {} {kind}", rng.below(2))
+            format!("{who} addroute {} {kind}", non_dist(rng))
         } else if k < 97 {
-            format!("admin rmroute {} direct", rng.below(2))
+            format!("admin rmroute {} direct", non_dist(rng))
         } else if k < 99 {
-            format!("admin toggle {} {}", rng.below(3), rng.below(2))
+            format!("admin toggle {} {}", rng.below(np), rng.below(2))
         } else {
-            format!("admin unreg {}", rng.below(3))
+            format!("admin unreg {}", rng.below(np))
         };
         Some(body)
     }
